@@ -13,7 +13,8 @@ def rest(P, rep):
     from .lib_c18c import r188
     from .lib_c18d import r189
     from .lib_c18f import r1810, r1811
-    return (('R18.10', r1810, (P, rep)), ('R18.11', r1811, (P, rep)), ('R18.8', r188, (P, rep)), ('R18.9', r189, (P, rep)), ('R18.4', r184, (P, rep)), ('R18.5', r185, (P, rep)),
+    from .lib_c18g import r1812, r182_computed
+    return (('R18.10', r1810, (P, rep)), ('R18.11', r1811, (P, rep)), ('R18.12', r1812, (P, rep)), ('R18.2', r182_computed, (P, rep)), ('R18.8', r188, (P, rep)), ('R18.9', r189, (P, rep)), ('R18.4', r184, (P, rep)), ('R18.5', r185, (P, rep)),
             ('R18.6', r186_handlers, (P, pu, rep)), ('R18.6', r186_line_marker, (P, pu, rep)), ('R18.6', r186_origin, (P, pu, rep)),
             ('R18.7', r187, (P, rep)))
 
@@ -173,6 +174,7 @@ def r186_line_marker(P, u, rep):
     def mk(ctx):
         return [Sym('rest', 'Token **'), Obj('Token', lazy=True, label='start')]
     n = 0
+    recs = []       # (constant part of the stored delta relative to N - (L + 1), the directive token whose line is L, facts) per returning path
     for ctx, out in it.explore(fn, mk):
         if out[0] != 'ret':
             continue
@@ -186,20 +188,47 @@ def r186_line_marker(P, u, rep):
         okf = isinstance(o, Obj) and o.label == 'start.file'
         rep.ob('R18.6', base + ':delta-of-the-directives-file', okf, '#line stores its delta into %r, not into the file of the directive' % (o,), where=W, facts=facts)
         nsym = _line_operand(P, u, rep, ctx, v, base, W, facts)
-        want = lsub(lsub(nsym, Sym('start.line_no')), 1)
-        d = lsub(v, want)
-        if isinstance(d, int) and d == 0:
-            rep.ob('R18.6', base + ':next-line-is-N', True, '', where=W)
-        elif isinstance(d, int):
-            rep.ob('R18.6', base + ':next-line-is-N%+d' % d, False,
-                   '`#line N` on physical line L stores delta N - L%s; the line after the directive (L+1) is then presented as N%+d, C11 6.10.4p3 and gcc make it N: __LINE__ after any #line is off by %d' % ((' %+d' % (d - 1)) if d != 1 else '', d, d),
-                   where=W, facts=facts)
+        # which physical line the delta counts from: the line of a token of the directive (the keyword, an operand, the last token of the line)
+        lv = lin(v)
+        ltoks = sorted(set(leaf.name[:-len('.line_no')] for (c, leaf) in (lv.terms.values() if lv is not None else [])
+                           if c == -1 and isinstance(leaf, Sym) and isinstance(leaf.name, str) and leaf.name.endswith('.line_no')))
+        if len(ltoks) != 1:
+            rep.ob('R18.6', base + ':delta-formula', False, '#line stores %r as delta, expected N - (L + 1) with L the line of the directive' % (v,), where=W, facts=facts)
         else:
-            rep.ob('R18.6', base + ':delta-formula', False, '#line stores %r as delta, expected N - (L + 1) = %r' % (v, want), where=W, facts=facts)
+            d = lsub(v, lsub(lsub(nsym, Sym(ltoks[0] + '.line_no')), 1))
+            if isinstance(d, int):
+                recs.append((d, ltoks[0], facts))
+            else:
+                rep.ob('R18.6', base + ':delta-formula', False, '#line stores %r as delta, expected N - (L + 1) = %r' % (v, lsub(lsub(nsym, Sym(ltoks[0] + '.line_no')), 1)), where=W, facts=facts)
         dn = [e for e in ctx.events if e[0] == 'fstore' and e[2] == 'display_name']
         if dn:
             okd = isinstance(dn[-1][1], Obj) and dn[-1][1].label == 'start.file' and getattr(dn[-1][4], 'name', '').endswith('.str')
             rep.ob('R18.6', base + ':display-name-from-the-string', okd, '#line "name" does not store the string operand as display name of the directive\'s file (%r)' % (dn[-1][4],), where=W, facts=facts)
+    if recs:
+        # a directive that is one physical line: the path on which nothing but the token's line is subtracted (the largest constant)
+        d = max(r[0] for r in recs)
+        facts = [r[2] for r in recs if r[0] == d][0]
+        if d == 0:
+            rep.ob('R18.6', base + ':next-line-is-N', True, '', where=W)
+        else:
+            rep.ob('R18.6', base + ':next-line-is-N%+d' % d, False,
+                   '`#line N` on physical line L stores delta N - L%s; the line after the directive (L+1) is then presented as N%+d, C11 6.10.4p3 and gcc make it N: __LINE__ after any #line is off by %d' % ((' %+d' % (d - 1)) if d != 1 else '', d, d),
+                   where=W, facts=facts)
+        # the numbering restarts on the line that FOLLOWS the directive, and a directive ends where its new-line is: a comment (or a line splice) inside it may put
+        # that new-line on a later physical line than any of its tokens. A delta that on every path is N minus the line of a token of the directive (plus a constant)
+        # takes the line on which that token starts for the line the directive ends on; a function that counts what lies behind the last token subtracts more on some paths
+        toks = sorted(set(r[1] for r in recs))
+        on_dir = [t for t in toks if t.split('.', 1)[0] in ('start', 'linetoks', 'arg')]
+        key = base + ':counted-from-the-line-the-directive-ends-on'
+        if len(set(r[0] for r in recs)) > 1:
+            rep.ob('R18.6', key + '/scans-behind-the-last-token', True, '', where=W)       # that the scan counts exactly the new-lines of the comments is not decided
+        elif on_dir:
+            rep.ob('R18.6', key + '/line-of-a-token-of-the-directive', False,
+                   '#line computes its delta from %s.line_no on every path, the physical line on which a token of the directive starts: a directive that extends over several physical lines '
+                   '(a comment with new-lines behind the operand, a line splice) ends later than any of its tokens, so every line after `#line 100 /* x\\n\\n */` is numbered too high '
+                   'by the number of new-lines inside the directive (gcc counts from the line that follows the directive)' % on_dir[0], where=W, facts=recs[0][2])
+        else:
+            rep.undecided('R18.6', key, 'the delta is computed from the line of `%s`; whether that is the line the directive ends on is not decided' % toks[0], where=W)
     if n < 2:
         rep.undecided('R18.6', base + ':liveness', 'fewer than 2 returning paths store a delta (%d)' % n, where=W)
 
@@ -237,7 +266,7 @@ def _line_operand(P, u, rep, ctx, v, base, W, facts):
     """the operand N inside the stored delta, and how it was read from the spelling: `#line` takes a digit sequence that is read as a
     DECIMAL number whatever its leading zeros (C11 6.10.4p3), not an integer constant whose prefix selects the radix"""
     l = lin(v)
-    others = [(c, leaf) for (c, leaf) in (l.terms.values() if l is not None else []) if getattr(leaf, 'name', None) != 'start.line_no']
+    others = [(c, leaf) for (c, leaf) in (l.terms.values() if l is not None else []) if not (getattr(leaf, 'name', None) or '').endswith('.line_no')]
     if len(others) != 1 or others[0][0] != 1:
         return Sym('arg.val')
     leaf = others[0][1]
